@@ -162,3 +162,92 @@ def gen_trading(rng, opts=None):
     if o['mgmt'] and rng.random() < 0.5:
         script.setdefault('-1|init|0', []).append(dict(op='mgmt_fee', acc='STOCK' if active_stocks else 'FUTURE', rate=rng.choice([0.001, 0.0001])))
     return scn
+
+
+def gen_div_capture(rng, opts=None):
+    """Hold a stock over a dividend record date, then (often) sell everything before the payable date."""
+    o = dict(same_day_split=rng.random() < 0.4, reinvest=rng.random() < 0.3)
+    o.update(opts or {})
+    wopts = dict(ndays=rng.randint(10, 14), actions=True, force_dividend=True, same_day_split=o['same_day_split'], futures=False,
+                 integral_splits=o.get('integral_splits', True), overlapping_dividends=o.get('overlap', False))
+    scn = gen_trading(rng, dict(freq='1d', stocks=1, futures=False, flows=rng.random() < 0.3, world=wopts, actions_per_phase=(0, 0, 0, 1), p_cancel=0.0))
+    w = W.gen_world(random.Random(scn['world_seed']), scn['world_opts'])
+    sid = W.STOCKS[0]
+    scn['meta']['active_stocks'] = [sid]
+    sim = scn['cfg']['mod']['sys_simulation']
+    sim.update(volume_limit=False, price_limit=False, inactive_limit=False, slippage=0)
+    scn['cfg']['mod']['sys_accounts']['dividend_reinvestment'] = o['reinvest']
+    scn['cfg']['base']['accounts'] = {'stock': 1000000}
+    dv = w.dividends[sid][0]
+    dints = [W.dint(d) for d in w.days]
+    ib, ie, ip = dints.index(dv[0]), dints.index(dv[3]), dints.index(dv[4])
+    script = {k: [a for a in v if a.get('id') != sid and a['op'] in ('deposit', 'withdraw', 'finance', 'repay')] for k, v in scn['script'].items()}
+    script = {k: v for k, v in script.items() if v}
+    buy_day = rng.randint(1, max(1, ib))
+    script.setdefault('%d|handle_bar|0' % buy_day, []).insert(0, dict(op='order_shares', id=sid, amt=rng.choice([1000, 1500, 300, 5000]), style='mkt'))
+    r = rng.random()
+    if r < 0.7 and ip > ie:
+        sell_day = rng.randint(ie, ip - 1)
+        script.setdefault('%d|handle_bar|0' % sell_day, []).append(dict(op='order_target_percent', id=sid, amt=0, style='mkt'))
+    elif r < 0.85:
+        script.setdefault('%d|handle_bar|0' % min(ie, len(dints) - 2), []).append(dict(op='order_shares', id=sid, amt=-200, style='mkt'))
+    scn['script'] = script
+    scn['start_i'], scn['end_i'] = 1, len(dints) - 2
+    return scn
+
+
+def gen_close_pile(rng, opts=None):
+    """Positions with yesterday's and today's quantity, several resting closing orders, close-today on top."""
+    o = dict(kind=rng.choice(['future', 'future', 'stock']))
+    o.update(opts or {})
+    fut = o['kind'] == 'future'
+    wopts = dict(ndays=rng.randint(7, 10), actions=False, expiry=False)
+    scn = gen_trading(rng, dict(freq='1d', stocks=0 if fut else 1, futures=fut, flows=False, world=wopts, actions_per_phase=(0,), p_cancel=0.0))
+    sim = scn['cfg']['mod']['sys_simulation']
+    sim.update(volume_limit=False, price_limit=False, inactive_limit=False, slippage=0, matching_type='current_bar')
+    scn['cfg']['base']['accounts'] = {'future': 10000000} if fut else {'stock': 10000000}
+    scn['cfg']['mod']['sys_risk']['validate_price'] = False
+    script = {}
+    nd = wopts['ndays']
+    if fut:
+        fid = rng.choice(W.FUTS)
+        scn['universe'] = [fid]
+        long_side = rng.random() < 0.5
+        op_open, op_close = ('buy_open', 'sell_close') if long_side else ('sell_open', 'buy_close')
+        far = ['lim', 1.07] if long_side else ['lim', 0.93]       # a closing limit that does not fill
+        d = 1
+        script['%d|handle_bar|0' % d] = [dict(op=op_open, id=fid, amt=rng.randint(1, 6), style='mkt')]
+        for d in range(2, nd - 1):
+            acts = []
+            if rng.random() < 0.8:
+                acts.append(dict(op=op_open, id=fid, amt=rng.randint(1, 5), style='mkt'))
+            for _ in range(rng.randint(1, 4)):
+                r = rng.random()
+                if r < 0.5:
+                    acts.append(dict(op=op_close, id=fid, amt=rng.randint(1, 6), style=far))
+                elif r < 0.8:
+                    acts.append(dict(op=op_close, id=fid, amt=rng.randint(1, 5), style=far, ct=True))
+                else:
+                    acts.append(dict(op='submit_order', id=fid, amt=rng.randint(1, 5), side='SELL' if long_side else 'BUY',
+                                     eff=rng.choice(['CLOSE', 'CLOSE_TODAY']), style=far))
+            if rng.random() < 0.5:
+                acts.append(dict(op=op_close, id=fid, amt=rng.randint(1, 8), style='mkt', ct=rng.random() < 0.4))
+            # resting orders placed in the auction are matched (and rest) during the day; the bar then fills marketable ones
+            script['%d|open_auction|0' % d] = acts
+            if rng.random() < 0.6:
+                # make the resting closes marketable later the same day: a limit on the other side of the market fills at the bar
+                script['%d|handle_bar|0' % d] = [dict(op=op_close, id=fid, amt=rng.randint(1, 8), style=['lim', 0.93 if long_side else 1.07], ct=rng.random() < 0.3)]
+    else:
+        sid = rng.choice(W.STOCKS[:2] + [W.ETF])
+        scn['meta']['active_stocks'] = [sid]
+        script['1|handle_bar|0'] = [dict(op='order_shares', id=sid, amt=rng.choice([500, 1000, 300]), style='mkt')]
+        for d in range(2, nd - 1):
+            acts = []
+            if rng.random() < 0.6:
+                acts.append(dict(op='order_shares', id=sid, amt=rng.choice([100, 400, 700]), style='mkt'))
+            for _ in range(rng.randint(1, 3)):
+                acts.append(dict(op='order_shares', id=sid, amt=-rng.choice([100, 200, 300, 500, 900]), style=rng.choice([['lim', 1.08], 'mkt'])))
+            script['%d|%s|0' % (d, rng.choice(['open_auction', 'handle_bar']))] = acts
+    scn['script'] = script
+    scn['start_i'], scn['end_i'] = 1, nd - 2
+    return scn
